@@ -65,48 +65,61 @@ func init() {
 		} else {
 			return "", fmt.Errorf("consumerGroup.Ack: guard not found")
 		}
-		// PrepareFlush / needFlush shapes
-		type pf struct{ file, recv, prep, need, flush string }
-		pfs := []pf{
-			{"index/kv_store.go", "indexKVStore", "PrepareFlush", "needFlush", "Flush"},
-			{"index/metric_schema_store.go", "metricSchemaStore", "PrepareFlush", "needFlush", "Flush"},
-			{"index/metric_index_database.go", "invertedIndex", "prepareFlush", "needFlush", "flush"},
-			{"index/metric_index_database.go", "forwardIndex", "prepareFlush", "needFlush", "flush"},
-		}
-		var conds []string
-		nWedge, nSwap := 0, 0
-		for _, x := range pfs {
-			f, err := get(x.file)
-			if err != nil {
-				return "", err
-			}
-			c := firstIfCond(FindFunc(f, x.recv, x.prep))
-			if c == "" {
-				return "", fmt.Errorf("%s.%s: no if statement", x.recv, x.prep)
-			}
-			c = normRecv(c)
-			conds = append(conds, c)
-			earlyResets := earlyReturnResets(FindFunc(f, x.recv, x.flush))
-			switch {
-			case c == "r.immutable == nil" && !earlyResets:
-				nWedge++
-			case strings.Contains(c, "IsEmpty()") || earlyResets:
-				nSwap++
-			default:
-				return "", fmt.Errorf("%s.%s: unknown PrepareFlush shape %q", x.recv, x.prep, c)
-			}
+		swap, conds, err := C07SwapOnEmpty(repo)
+		if err != nil {
+			return "", err
 		}
 		fmt.Fprintf(&sb, "/-- conditions of the four dictionary PrepareFlush functions (receiver renamed to r) -/\ndef prepareConds : List String := %s\n\n", LeanStrList(conds))
-		switch {
-		case nWedge == len(pfs):
-			sb.WriteString("/-- PrepareFlush swaps only when `immutable == nil`, and Flush leaves an empty immutable map in place -/\ndef swapOnEmpty : Bool := false\n")
-		case nSwap == len(pfs):
+		if swap {
 			sb.WriteString("/-- an empty immutable map does not block the next PrepareFlush -/\ndef swapOnEmpty : Bool := true\n")
-		default:
-			return "", fmt.Errorf("the four PrepareFlush copies disagree: %v", conds)
+		} else {
+			sb.WriteString("/-- PrepareFlush swaps only when `immutable == nil`, and Flush leaves an empty immutable map in place -/\ndef swapOnEmpty : Bool := false\n")
 		}
 		return sb.String(), nil
 	}})
+}
+
+// C07SwapOnEmpty reads the shape of the four copies of the dictionary PrepareFlush/Flush pattern in
+// the index package: false = `if r.immutable == nil {` and a Flush that leaves an empty immutable
+// map in place (an empty prepare blocks every later one), true = an empty immutable map does not
+// block the next prepare. Any other shape, or copies that disagree, is an error.
+func C07SwapOnEmpty(repo string) (swap bool, conds []string, err error) {
+	type pf struct{ file, recv, prep, flush string }
+	pfs := []pf{
+		{"index/kv_store.go", "indexKVStore", "PrepareFlush", "Flush"},
+		{"index/metric_schema_store.go", "metricSchemaStore", "PrepareFlush", "Flush"},
+		{"index/metric_index_database.go", "invertedIndex", "prepareFlush", "flush"},
+		{"index/metric_index_database.go", "forwardIndex", "prepareFlush", "flush"},
+	}
+	nWedge, nSwap := 0, 0
+	for _, x := range pfs {
+		_, f, perr := ParseFile(repo, x.file)
+		if perr != nil {
+			return false, nil, perr
+		}
+		c := firstIfCond(FindFunc(f, x.recv, x.prep))
+		if c == "" {
+			return false, nil, fmt.Errorf("%s.%s: no if statement", x.recv, x.prep)
+		}
+		c = normRecv(c)
+		conds = append(conds, c)
+		earlyResets := earlyReturnResets(FindFunc(f, x.recv, x.flush))
+		switch {
+		case c == "r.immutable == nil" && !earlyResets:
+			nWedge++
+		case strings.Contains(c, "IsEmpty()") || earlyResets:
+			nSwap++
+		default:
+			return false, conds, fmt.Errorf("%s.%s: unknown PrepareFlush shape %q", x.recv, x.prep, c)
+		}
+	}
+	switch {
+	case nWedge == len(pfs):
+		return false, conds, nil
+	case nSwap == len(pfs):
+		return true, conds, nil
+	}
+	return false, conds, fmt.Errorf("the four PrepareFlush copies disagree: %v", conds)
 }
 
 // callSeqExec is CallSeq in EXECUTION order for straight-line readers: calls in source order, the
